@@ -102,7 +102,22 @@ Value gen(uint64_t seed, const std::string& tier)
     hist.push(simple_op("solve"));
     SolverOpts cur = o;
     bool need_setup = false;
-    if (g.chance(0.12)) {
+    if (g.chance(0.25)) {
+        // "mode tour": the same object is set up and solved for a sequence of extrapolation modes (every ordered pair
+        // of modes is a different history for the state that setup() must rebuild)
+        int steps = g.range(2, 4);
+        for (int k = 0; k < steps; k++) {
+            int m = g.range(0, 3);
+            hist.push(set_op("extrapolation", m));
+            if (g.chance(0.3))
+                hist.push(set_op("fmg", g.chance(0.5)));
+            hist.push(simple_op("setup"));
+            hist.push(simple_op("solve"));
+            if (g.chance(0.3))
+                hist.push(simple_op("solve"));
+        }
+    }
+    else if (g.chance(0.12)) {
         // the refinement-loop pattern of the shipped convergence_order program
         for (int k = 1; k <= 2; k++) {
             hist.push(set_op("divideBy2", k));
